@@ -73,6 +73,8 @@ func asymmetric(alg string) bool {
 	return false
 }
 
+const hmacSecret = "0123456789abcdef0123456789abcdef-hmac-secret"
+
 // build makes the configured signer and one presented token from symbolic choices.
 func build(nAlgs int) *scene {
 	s := &scene{}
@@ -80,9 +82,16 @@ func build(nAlgs int) *scene {
 	s.cfgKind = ks[zz.Choice("cfgkind", len(ks))]
 	s.cfgPriv, s.cfgPub = zzjwt.GenKey(s.cfgKind)
 	var configured interface{} = s.cfgPriv
-	wrap := zz.Choice("wrap", 2)
-	if wrap == 1 {
+	wrap := zz.Choice("wrap", 3)
+	switch wrap {
+	case 1:
 		configured = &jose.JSONWebKey{Key: s.cfgPriv, KeyID: "server-key", Algorithm: zzjwt.NaturalAlg(s.cfgKind), Use: "sig"}
+	case 2:
+		// a (mis)configured symmetric key wrapped in a JWK: nothing may ever be accepted under it
+		// ("never a symmetric algorithm"); the presented token may be signed with this very secret
+		s.cfgKind = "oct"
+		configured = &jose.JSONWebKey{Key: []byte(hmacSecret), KeyID: "server-key", Algorithm: "HS256", Use: "sig"}
+		zz.Cover("config:symmetric-key-in-a-jwk", true)
 	}
 	s.signer = &jwt.DefaultSigner{GetPrivateKey: func(context.Context) (interface{}, error) { return configured, nil }}
 
@@ -98,7 +107,9 @@ func build(nAlgs int) *scene {
 	case 1:
 		// the foreign key has the same type as the configured one or the other family
 		othKind := s.cfgKind
-		if zz.Choice("othkind", 2) == 1 {
+		if othKind == "oct" {
+			othKind = zzjwt.RSA
+		} else if zz.Choice("othkind", 2) == 1 {
 			if s.cfgKind == zzjwt.RSA {
 				othKind = zzjwt.P256
 			} else {
@@ -109,7 +120,7 @@ func build(nAlgs int) *scene {
 		key = s.othPriv
 		maxTamper = 2
 	case 2:
-		key = []byte("0123456789abcdef0123456789abcdef-hmac-secret")
+		key = []byte(hmacSecret)
 	case 3:
 		key, s.unsigned = nil, true
 	}
